@@ -29,8 +29,9 @@ import (
 
 	"github.com/attestantio/go-eth2-client/api"
 	apiv1 "github.com/attestantio/go-eth2-client/api/v1"
+	"github.com/attestantio/go-eth2-client/spec"
+	"github.com/attestantio/go-eth2-client/spec/capella"
 	"github.com/attestantio/go-eth2-client/spec/phase0"
-	"github.com/attestantio/vouch/mock"
 	standardcache "github.com/attestantio/vouch/services/cache/standard"
 	nullmetrics "github.com/attestantio/vouch/services/metrics/null"
 	"github.com/rs/zerolog"
@@ -79,6 +80,47 @@ func (p *c17linHeaders) BeaconBlockHeader(ctx context.Context, opts *api.BeaconB
 		},
 		Metadata: map[string]any{},
 	}, nil
+}
+
+// c17linBlocks is the node's block store for the head events: the block of head number i carries execution block
+// number i and an execution block hash that encodes i, so that a (hash, height) pair read from the cache shows
+// whether both halves come from ONE head.
+type c17linBlocks struct{}
+
+func c17linHeadRoot(i uint64) phase0.Root {
+	var r phase0.Root
+	r[0] = 0x4e
+	binary.LittleEndian.PutUint64(r[8:], i)
+	return r
+}
+
+func c17linHash(i uint64) phase0.Hash32 {
+	var h phase0.Hash32
+	if i > 0 {
+		h[0] = 0xee
+	}
+	binary.LittleEndian.PutUint64(h[8:], i)
+	return h
+}
+
+func (c17linBlocks) SignedBeaconBlock(ctx context.Context, opts *api.SignedBeaconBlockOpts) (*api.Response[*spec.VersionedSignedBeaconBlock], error) {
+	if err := ctx.Err(); err != nil {
+		return nil, err
+	}
+	for i := uint64(1); i <= 4096; i++ {
+		if c17linHeadRoot(i).String() == opts.Block {
+			return &api.Response[*spec.VersionedSignedBeaconBlock]{
+				Data: &spec.VersionedSignedBeaconBlock{
+					Version: spec.DataVersionCapella,
+					Capella: &capella.SignedBeaconBlock{Message: &capella.BeaconBlock{Body: &capella.BeaconBlockBody{
+						ExecutionPayload: &capella.ExecutionPayload{StateRoot: [32]byte{1}, BlockNumber: i, BlockHash: c17linHash(i)},
+					}}},
+				},
+				Metadata: map[string]any{},
+			}, nil
+		}
+	}
+	return nil, errors.New("block not found") // also for "head": the cache starts without an execution head
 }
 
 func c17linRoot(key uint64) phase0.Root {
@@ -173,17 +215,19 @@ func init() {
 			standardcache.WithChainTime(ct),
 			standardcache.WithScheduler(sched),
 			standardcache.WithEventsProvider(ev),
-			standardcache.WithSignedBeaconBlockProvider(mock.NewSignedBeaconBlockProvider()),
+			standardcache.WithSignedBeaconBlockProvider(c17linBlocks{}),
 			standardcache.WithBeaconBlockHeadersProvider(node),
 		)
 		if err != nil {
 			t.Fatalf("cache constructor: %v", err)
 		}
 		cleanJob, ok := sched.Get("Clean block root to slot cache")
-		if !ok || len(ev.Handlers["block"]) != 1 {
-			t.Fatalf("cache service: clean job or block subscription not found")
+		if !ok || len(ev.Handlers["block"]) != 1 || len(ev.Handlers["head"]) != 1 {
+			t.Fatalf("cache service: clean job or block / head subscription not found")
 		}
 		blockHandler := ev.Handlers["block"][0]
+		headHandler := ev.Handlers["head"][0]
+		headNumber := uint64(0)
 
 		var clock atomic.Uint64
 		mainRec := &c17linRecorder{clock: &clock}
@@ -206,7 +250,7 @@ func init() {
 			release := func() { once.Do(func() { close(started) }) }
 			ct.onMinSlot.Store(&release)
 
-			recs := make([]*c17linRecorder, 6)
+			recs := make([]*c17linRecorder, 9)
 			for i := range recs {
 				recs[i] = &c17linRecorder{clock: &clock}
 			}
@@ -268,6 +312,34 @@ func init() {
 						runtime.Gosched()
 					}
 					rec.lookup(svc, key(r, clsUnknown, g), 0, false)
+				})
+			}
+			// the head event subscription (one goroutine) and two readers of the execution chain head: every pair
+			// (hash, height) read must be the pair of ONE head (the hash encodes the height); every inconsistent
+			// pair is recorded, and a sample of the others
+			var headsDone atomic.Bool
+			run(recs[6], func(rec *c17linRecorder) {
+				<-started
+				for i := 0; i < 150; i++ {
+					headNumber++
+					headHandler(&apiv1.Event{Topic: "head", Data: &apiv1.HeadEvent{Slot: phase0.Slot(currentSlot), Block: c17linHeadRoot(headNumber)}})
+				}
+				headsDone.Store(true)
+			})
+			for g := 0; g < 2; g++ {
+				run(recs[7+g], func(rec *c17linRecorder) {
+					<-started
+					for i := 0; !headsDone.Load() || i < 100; i++ {
+						inv := rec.clock.Add(1)
+						hash, height := svc.ExecutionChainHead(ctx)
+						resp := rec.clock.Add(1)
+						inHash := binary.LittleEndian.Uint64(hash[8:])
+						if inHash != height || i%5000 == 0 {
+							if len(rec.ops) < 8 {
+								rec.ops = append(rec.ops, histOp{Kind: 3, Key: inHash, Val: height, Res: -1, Inv: inv, Resp: resp})
+							}
+						}
+					}
 				})
 			}
 			wg.Wait()
